@@ -414,7 +414,16 @@ def handleVec (F : Codec K) (op : String) (toks : List String) : String :=
       if b.n != n then "bad-op" else
       let y := vecFn b.e
       if a.kind == "SC" then
-        (if b.kind != "SC" then "bad-op" else
+        (if b.kind != "SC" then
+           -- asVector(s) + v, asVector(s) - v: the result and what the scalar holds afterwards
+           (if n != 1 then "bad-op" else
+            match op with
+            | "vplus" => let r := binObj Gen.vplusResult true xv (vPlus xv y)
+                         encList F [r.1.get 0] ++ " stored=" ++ encList F [r.2.get 0]
+            | "vminus" => let r := binObj Gen.vminusResult true xv (vMinus xv y)
+                          encList F [r.1.get 0] ++ " stored=" ++ encList F [r.2.get 0]
+            | _ => "bad-op")
+         else
          match op with
          -- free functions on plain scalars (dotproduct.hh)
          | "fdot" => encList F [scalarDot (if F.cplx then Gen.scalarDotComplex else Gen.scalarDotReal) F.conj (x 0) (y 0)]
